@@ -524,7 +524,7 @@ TRet ==
                n == Len(a.vals)
            IN
            IF refs # {} \/ (call.api = "eio" /\ n = 0)   \* embedded-io: an empty buffer is a no-op returning 0
-           THEN IF Admissible(refs, r)
+           THEN IF Admissible(refs, r) \/ (call.api = "eio" /\ n = 0 /\ ok)    \* ... also on a read-only handle
                 THEN /\ UNCHANGED apiVars /\ dur' = dur
                      /\ viol' = Report(StateChecks(op, e.obs, e.fateq) \cup (IF disk # pre THEN {<<"C07", "Refused", "refused write wrote">>} ELSE {}))
                 ELSE /\ UNCHANGED apiVars /\ dur' = dur
